@@ -4,14 +4,62 @@ C28 — property theorems (statements depend on Model.lean only; helper lemmas i
 Property: for two segments with integer coordinates in a bounded box, `segments_2d` / `segments_3d`
 report no intersection, one point or an overlapping segment exactly as exact rational arithmetic
 does, with the same points, independent of argument order.
+
+  §A  the bound and its only use (`bound_gap`)
+  §B  model = exact specification (`seg2d_eq_spec`, `seg3d_eq_spec`)
+  §C  the specification IS the set intersection (`mem_segInter2_iff`, `mem_segInter3_iff`)
+  §D  independence of argument order (`seg_symmetric`, `seg2d_symmetric`, `seg3d_symmetric`)
+  §E  what the code does outside the property: zero-length segments, the dropped assertion
+  §F  the two findings: `segments_3d` as coded violates the property (`decide` witnesses)
 -/
 import PorepyVerif.C28.Lemmas
 
 namespace PorepyVerif.C28
 
+/-! ## §A  The bound -/
+
 /-- the default tolerance and the box of the property: `8·1000²·1e-8 = 0.08 < 1` -/
 theorem tolSmall_default : TolSmall (1 / 100000000) 1000 :=
   ⟨by decide +kernel, by decide, by decide +kernel⟩
+
+/-- THE ONLY USE OF THE BOUND.  Under `8·B²·tol < 1` a non-zero integer `n` (a determinant, a
+    component of a cross product, a coordinate difference) exceeds every tolerance term it is
+    compared with:  (1) `|n| > tol` (absolute tests of `segments_3d`);  (2) `n² > tol²·l1·l2` for squared
+    lengths `l1, l2 ≤ 8B²` (the relative tests of `segments_2d`, in squared form; `l2 = 1` gives the
+    tests against one length);  (3) a non-zero ratio `n/m` with `|m| ≤ 8B²` (a line parameter or a
+    difference of parameters, a residual of Cramer's rule) satisfies `|n/m| > tol`.
+    Everything else in the proofs of §B is exact algebra over ℚ. -/
+theorem bound_gap (tol : Rat) (B : Int) (hT : TolSmall tol B) (n : Int) (hn : n ≠ 0) :
+    tol < |(n : Rat)| ∧
+    (∀ l1 l2 : Rat, 0 ≤ l1 → l1 ≤ 8 * B * B → 0 ≤ l2 → l2 ≤ 8 * B * B → tol * tol * l1 * l2 < (n : Rat) * n) ∧
+    (∀ m : Int, m ≠ 0 → |(m : Rat)| ≤ 8 * B * B → tol < |(n : Rat) / m|) := by
+  have hB : (1:Rat) ≤ B := by exact_mod_cast hT.one_le
+  have hK1 : (1:Rat) ≤ 8 * B * B := by nlinarith
+  have hpos := hT.pos
+  have hsm := hT.small
+  have htol1 : tol < 1 := by nlinarith
+  refine ⟨?_, ?_, ?_⟩
+  · have := int_abs_ge_one n hn; linarith
+  · intro l1 l2 h1 h1' h2 h2'
+    have := int_sq_ge_one n hn
+    have a1 : tol * l1 < 1 := by nlinarith
+    have a2 : tol * l2 < 1 := by nlinarith
+    have a3 : 0 ≤ tol * l1 := by positivity
+    have a4 : 0 ≤ tol * l2 := by positivity
+    nlinarith
+  · intro m hm hmb
+    have h2 := ratio_abs_ge n m hn hm
+    have hm' : 0 < |(m : Rat)| := by have := int_abs_ge_one m hm; linarith
+    have := abs_nonneg ((n : Rat) / m)
+    nlinarith
+
+
+/-- non-vacuity: with the default tolerance and box, a determinant `n = -1` (nearly parallel
+    directions (500,499), (499,498)) still exceeds the tolerance term of two segments of maximal length -/
+example : (1 / 100000000 : Rat) * (1 / 100000000) * (8 * 1000 * 1000) * (8 * 1000 * 1000) < ((-1 : Int) : Rat) * ((-1 : Int) : Rat) :=
+  (bound_gap _ 1000 tolSmall_default (-1) (by decide)).2.1 _ _ (by norm_num) (by norm_num) (by norm_num) (by norm_num)
+
+/-! ## §B  Model = exact specification on bounded integer coordinates -/
 
 /-- 2-D: on integer coordinates in `[-B, B]` with `8·B²·tol < 1`, the model of `segments_2d`
     (tolerances and all) returns exactly the exact-arithmetic intersection — same kind, same
@@ -154,7 +202,189 @@ example : seg3d (1 / 100000000) (P3.ofInt 0 0 0) (P3.ofInt 3 3 3) (P3.ofInt 2 2 
 example : seg3d (1 / 100000000) (P3.ofInt 0 0 0) (P3.ofInt 1 1 1) (P3.ofInt 1 1 1) (P3.ofInt 2 2 2)
     = .point (P3.ofInt 1 1 1) := by decide +kernel
 
-/-! ### The two findings: `segments_3d` as it is coded (`seg3dCode`) does NOT satisfy the property -/
+/-! ## §C  The specification is the set intersection -/
+
+/-- SOUNDNESS (3-D): for segments of positive length, the points of `segInter3 a b c d` are exactly
+    the common points of the closed segments `[a,b]` and `[c,d]` — for ALL rational coordinates. -/
+theorem mem_segInter3_iff (p a b c d : P3) (nd1 : a ≠ b) (nd2 : c ≠ d) :
+    Res.Mem3 p (segInter3 a b c d) ↔ OnSeg3 p a b ∧ OnSeg3 p c d :=
+  mem_segInter3_iff' p a b c d (P3.delta_ne nd1) (P3.delta_ne nd2)
+
+/-- SOUNDNESS (2-D) -/
+theorem mem_segInter2_iff (p a b c d : P2) (nd1 : a ≠ b) (nd2 : c ≠ d) :
+    Res.Mem2 p (segInter2 a b c d) ↔ OnSeg2 p a b ∧ OnSeg2 p c d := by
+  apply mem_segInter2_iff' p a b c d
+  · have := P3.delta_ne (p := emb a) (q := emb b) (fun h => nd1 (emb_inj h))
+    simpa [emb] using this
+  · have := P3.delta_ne (p := emb c) (q := emb d) (fun h => nd2 (emb_inj h))
+    simpa [emb] using this
+
+/-- the kind is determined as well: the specification never returns a segment with equal end points
+    (nor an error), so `none` / `point` / `segment` ⇔ the intersection is empty / one point / infinite -/
+theorem segInter_wf : (∀ a b c d : P2, a ≠ b → (segInter2 a b c d).WF) ∧
+    (∀ a b c d : P3, a ≠ b → (segInter3 a b c d).WF) := by
+  constructor
+  · intro a b c d nd1
+    apply segInter2_WF
+    have := P3.delta_ne (p := emb a) (q := emb b) (fun h => nd1 (emb_inj h))
+    simpa [emb] using this
+  · intro a b c d nd1
+    exact segInter3_WF a b c d (P3.delta_ne nd1)
+
+/-- non-vacuity of the soundness statement -/
+example : Res.Mem3 ⟨3 / 2, 3 / 2, 3 / 2⟩ (segInter3 ⟨0, 0, 0⟩ ⟨3, 3, 3⟩ ⟨2, 2, 2⟩ ⟨1, 1, 1⟩) := by
+  have : segInter3 ⟨0, 0, 0⟩ ⟨3, 3, 3⟩ ⟨2, 2, 2⟩ ⟨1, 1, 1⟩ = .segment ⟨1, 1, 1⟩ ⟨2, 2, 2⟩ := by decide +kernel
+  rw [this]
+  exact ⟨1 / 2, by norm_num, by norm_num, by norm_num, by norm_num, by norm_num⟩
+
+/-! ## §D  Independence of argument order -/
+
+/-- `seg_symmetric`: swapping the two segments, or the end points of either segment, gives the same
+    result as a set (same kind, same point, same unordered pair of end points) — for ALL rational
+    segments of positive length, in 2-D and 3-D. -/
+theorem seg_symmetric :
+    (∀ a b c d : P2, a ≠ b → c ≠ d →
+      Res.same (segInter2 a b c d) (segInter2 c d a b) ∧
+      Res.same (segInter2 a b c d) (segInter2 b a c d) ∧
+      Res.same (segInter2 a b c d) (segInter2 a b d c)) ∧
+    (∀ a b c d : P3, a ≠ b → c ≠ d →
+      Res.same (segInter3 a b c d) (segInter3 c d a b) ∧
+      Res.same (segInter3 a b c d) (segInter3 b a c d) ∧
+      Res.same (segInter3 a b c d) (segInter3 a b d c)) := by
+  constructor
+  · intro a b c d nd1 nd2
+    apply segInter2_symm
+    · have := P3.delta_ne (p := emb a) (q := emb b) (fun h => nd1 (emb_inj h))
+      simpa [emb] using this
+    · have := P3.delta_ne (p := emb c) (q := emb d) (fun h => nd2 (emb_inj h))
+      simpa [emb] using this
+  · intro a b c d nd1 nd2
+    exact segInter3_symm a b c d (P3.delta_ne nd1) (P3.delta_ne nd2)
+
+/-- … hence the MODEL of `segments_2d` is independent of argument order on bounded integer coordinates -/
+theorem seg2d_symmetric (tol : Rat) (B : Int) (hT : TolSmall tol B)
+    (ax ay bx by' cx cy dx dy : Int)
+    (hax : InBox B ax) (hay : InBox B ay) (hbx : InBox B bx) (hby : InBox B by')
+    (hcx : InBox B cx) (hcy : InBox B cy) (hdx : InBox B dx) (hdy : InBox B dy)
+    (nd1 : bx ≠ ax ∨ by' ≠ ay) (nd2 : dx ≠ cx ∨ dy ≠ cy) :
+    Res.same (seg2d tol (P2.ofInt ax ay) (P2.ofInt bx by') (P2.ofInt cx cy) (P2.ofInt dx dy))
+             (seg2d tol (P2.ofInt cx cy) (P2.ofInt dx dy) (P2.ofInt ax ay) (P2.ofInt bx by')) ∧
+    Res.same (seg2d tol (P2.ofInt ax ay) (P2.ofInt bx by') (P2.ofInt cx cy) (P2.ofInt dx dy))
+             (seg2d tol (P2.ofInt bx by') (P2.ofInt ax ay) (P2.ofInt cx cy) (P2.ofInt dx dy)) ∧
+    Res.same (seg2d tol (P2.ofInt ax ay) (P2.ofInt bx by') (P2.ofInt cx cy) (P2.ofInt dx dy))
+             (seg2d tol (P2.ofInt ax ay) (P2.ofInt bx by') (P2.ofInt dx dy) (P2.ofInt cx cy)) := by
+  have nd1' : ax ≠ bx ∨ ay ≠ by' := by rcases nd1 with h | h; exact Or.inl (Ne.symm h); exact Or.inr (Ne.symm h)
+  have nd2' : cx ≠ dx ∨ cy ≠ dy := by rcases nd2 with h | h; exact Or.inl (Ne.symm h); exact Or.inr (Ne.symm h)
+  rw [seg2d_eq_spec tol B hT ax ay bx by' cx cy dx dy hax hay hbx hby hcx hcy hdx hdy nd1 nd2,
+    seg2d_eq_spec tol B hT cx cy dx dy ax ay bx by' hcx hcy hdx hdy hax hay hbx hby nd2 nd1,
+    seg2d_eq_spec tol B hT bx by' ax ay cx cy dx dy hbx hby hax hay hcx hcy hdx hdy nd1' nd2,
+    seg2d_eq_spec tol B hT ax ay bx by' dx dy cx cy hax hay hbx hby hdx hdy hcx hcy nd1 nd2']
+  apply seg_symmetric.1
+  · intro h; simp only [P2.ofInt, P2.mk.injEq] at h
+    rcases nd1 with h' | h'
+    · exact h' (by exact_mod_cast h.1.symm)
+    · exact h' (by exact_mod_cast h.2.symm)
+  · intro h; simp only [P2.ofInt, P2.mk.injEq] at h
+    rcases nd2 with h' | h'
+    · exact h' (by exact_mod_cast h.1.symm)
+    · exact h' (by exact_mod_cast h.2.symm)
+
+/-- … and so is the (repaired) model of `segments_3d` -/
+theorem seg3d_symmetric (tol : Rat) (B : Int) (hT : TolSmall tol B)
+    (ax ay az bx by' bz cx cy cz dx dy dz : Int)
+    (hax : InBox B ax) (hay : InBox B ay) (haz : InBox B az)
+    (hbx : InBox B bx) (hby : InBox B by') (hbz : InBox B bz)
+    (hcx : InBox B cx) (hcy : InBox B cy) (hcz : InBox B cz)
+    (hdx : InBox B dx) (hdy : InBox B dy) (hdz : InBox B dz)
+    (nd1 : bx ≠ ax ∨ by' ≠ ay ∨ bz ≠ az) (nd2 : dx ≠ cx ∨ dy ≠ cy ∨ dz ≠ cz) :
+    Res.same (seg3d tol (P3.ofInt ax ay az) (P3.ofInt bx by' bz) (P3.ofInt cx cy cz) (P3.ofInt dx dy dz))
+             (seg3d tol (P3.ofInt cx cy cz) (P3.ofInt dx dy dz) (P3.ofInt ax ay az) (P3.ofInt bx by' bz)) ∧
+    Res.same (seg3d tol (P3.ofInt ax ay az) (P3.ofInt bx by' bz) (P3.ofInt cx cy cz) (P3.ofInt dx dy dz))
+             (seg3d tol (P3.ofInt bx by' bz) (P3.ofInt ax ay az) (P3.ofInt cx cy cz) (P3.ofInt dx dy dz)) ∧
+    Res.same (seg3d tol (P3.ofInt ax ay az) (P3.ofInt bx by' bz) (P3.ofInt cx cy cz) (P3.ofInt dx dy dz))
+             (seg3d tol (P3.ofInt ax ay az) (P3.ofInt bx by' bz) (P3.ofInt dx dy dz) (P3.ofInt cx cy cz)) := by
+  have nd1' : ax ≠ bx ∨ ay ≠ by' ∨ az ≠ bz := by
+    rcases nd1 with h | h | h
+    · exact Or.inl (Ne.symm h)
+    · exact Or.inr (Or.inl (Ne.symm h))
+    · exact Or.inr (Or.inr (Ne.symm h))
+  have nd2' : cx ≠ dx ∨ cy ≠ dy ∨ cz ≠ dz := by
+    rcases nd2 with h | h | h
+    · exact Or.inl (Ne.symm h)
+    · exact Or.inr (Or.inl (Ne.symm h))
+    · exact Or.inr (Or.inr (Ne.symm h))
+  have e0 := seg3d_eq_spec tol B hT ax ay az bx by' bz cx cy cz dx dy dz hax hay haz hbx hby hbz hcx hcy hcz hdx hdy hdz nd1 nd2
+  have e1 := seg3d_eq_spec tol B hT cx cy cz dx dy dz ax ay az bx by' bz hcx hcy hcz hdx hdy hdz hax hay haz hbx hby hbz nd2 nd1
+  have e2 := seg3d_eq_spec tol B hT bx by' bz ax ay az cx cy cz dx dy dz hbx hby hbz hax hay haz hcx hcy hcz hdx hdy hdz nd1' nd2
+  have e3 := seg3d_eq_spec tol B hT ax ay az bx by' bz dx dy dz cx cy cz hax hay haz hbx hby hbz hdx hdy hdz hcx hcy hcz nd1 nd2'
+  have hab : P3.ofInt ax ay az ≠ P3.ofInt bx by' bz := by
+    intro h; simp only [P3.ofInt, P3.mk.injEq] at h
+    rcases nd1 with h' | h' | h'
+    · exact h' (by exact_mod_cast h.1.symm)
+    · exact h' (by exact_mod_cast h.2.1.symm)
+    · exact h' (by exact_mod_cast h.2.2.symm)
+  have hcd : P3.ofInt cx cy cz ≠ P3.ofInt dx dy dz := by
+    intro h; simp only [P3.ofInt, P3.mk.injEq] at h
+    rcases nd2 with h' | h' | h'
+    · exact h' (by exact_mod_cast h.1.symm)
+    · exact h' (by exact_mod_cast h.2.1.symm)
+    · exact h' (by exact_mod_cast h.2.2.symm)
+  obtain ⟨s1, s2, s3⟩ := seg_symmetric.2 _ _ _ _ hab hcd
+  exact ⟨Res.same_trans e0 (Res.same_trans s1 (Res.same_symm e1)),
+         Res.same_trans e0 (Res.same_trans s2 (Res.same_symm e2)),
+         Res.same_trans e0 (Res.same_trans s3 (Res.same_symm e3))⟩
+
+
+/-- non-vacuity: the hypotheses are satisfiable (default tolerance, box 1000); a colinear overlap with
+    the second segment reversed (in 2-D the two orders return the end points in opposite order) -/
+example : Res.same (seg3d (1 / 100000000) (P3.ofInt 0 0 0) (P3.ofInt 3 3 3) (P3.ofInt 2 2 2) (P3.ofInt 1 1 1))
+    (seg3d (1 / 100000000) (P3.ofInt 2 2 2) (P3.ofInt 1 1 1) (P3.ofInt 0 0 0) (P3.ofInt 3 3 3)) :=
+  (seg3d_symmetric _ 1000 tolSmall_default 0 0 0 3 3 3 2 2 2 1 1 1 ⟨by decide, by decide⟩ ⟨by decide, by decide⟩
+    ⟨by decide, by decide⟩ ⟨by decide, by decide⟩ ⟨by decide, by decide⟩ ⟨by decide, by decide⟩ ⟨by decide, by decide⟩
+    ⟨by decide, by decide⟩ ⟨by decide, by decide⟩ ⟨by decide, by decide⟩ ⟨by decide, by decide⟩ ⟨by decide, by decide⟩
+    (Or.inl (by decide)) (Or.inl (by decide))).1
+example : Res.same (seg2d (1 / 100000000) (P2.ofInt 0 0) (P2.ofInt 4 2) (P2.ofInt 6 3) (P2.ofInt 2 1))
+    (seg2d (1 / 100000000) (P2.ofInt 6 3) (P2.ofInt 2 1) (P2.ofInt 0 0) (P2.ofInt 4 2)) :=
+  (seg2d_symmetric _ 1000 tolSmall_default 0 0 4 2 6 3 2 1 ⟨by decide, by decide⟩ ⟨by decide, by decide⟩
+    ⟨by decide, by decide⟩ ⟨by decide, by decide⟩ ⟨by decide, by decide⟩ ⟨by decide, by decide⟩ ⟨by decide, by decide⟩
+    ⟨by decide, by decide⟩ (Or.inl (by decide)) (Or.inl (by decide))).1
+
+example : seg2d (1 / 100000000) (P2.ofInt 0 0) (P2.ofInt 4 2) (P2.ofInt 6 3) (P2.ofInt 2 1)
+      = .segment (P2.ofInt 2 1) (P2.ofInt 4 2) ∧
+    seg2d (1 / 100000000) (P2.ofInt 6 3) (P2.ofInt 2 1) (P2.ofInt 0 0) (P2.ofInt 4 2)
+      = .segment (P2.ofInt 4 2) (P2.ofInt 2 1) := by decide +kernel
+
+/-! ## §E  Outside the property: zero-length segments, and the assertion the model drops -/
+
+/-- 2-D, a zero-length segment in either position: the parallel test `0 < tol·0·len` is false, the
+    Cramer branch divides by `discr = 0`: AssertionError (the documented ValueError is unreachable). -/
+theorem seg2d_zero_length_errors (tol : Rat) (a b c : P2) :
+    seg2d tol a a b c = .err .assertion ∧ seg2d tol a b c c = .err .assertion :=
+  seg2d_zero_length tol a b c
+
+/-- 3-D: a zero-length first segment against a proper segment gives `None` — even when the point lies
+    on the segment; two zero-length segments at the same point raise IndexError. -/
+theorem seg3d_zero_length (tol : Rat) (h0 : 0 < tol) (a c d : P3)
+    (hd : rabs (d.x - c.x) > tol ∨ rabs (d.y - c.y) > tol ∨ rabs (d.z - c.z) > tol) :
+    seg3d tol a a c d = .none ∧ seg3d tol a a a a = .err .index :=
+  ⟨seg3d_zero_length_first tol h0 a c d hd, seg3d_zero_length_both tol h0 a⟩
+
+/-- `assert np.allclose(isect_1, isect_2, tol)` in `segments_2d`: in exact arithmetic the two points
+    `start_1 + t_1·d_1` and `start_2 + t_2·d_2` coincide whenever `discr ≠ 0`, so the assertion is
+    not part of the model. -/
+theorem seg2d_assert_never_fires (a b c d : P2)
+    (h : (b.x - a.x) * (-(d.y - c.y)) - (b.y - a.y) * (-(d.x - c.x)) ≠ 0) :
+    let discr := (b.x - a.x) * (-(d.y - c.y)) - (b.y - a.y) * (-(d.x - c.x))
+    let t1 := ((c.x - a.x) * (-(d.y - c.y)) - (c.y - a.y) * (-(d.x - c.x))) / discr
+    let t2 := ((b.x - a.x) * (c.y - a.y) - (b.y - a.y) * (c.x - a.x)) / discr
+    a.x + t1 * (b.x - a.x) = c.x + t2 * (d.x - c.x) ∧ a.y + t1 * (b.y - a.y) = c.y + t2 * (d.y - c.y) := by
+  intro discr t1 t2
+  have := isect_agree a.x a.y (b.x - a.x) (b.y - a.y) (d.x - c.x) (d.y - c.y) (c.x - a.x) (c.y - a.y) h
+  constructor
+  · have h1 := this.1; simp only [discr, t1, t2]; linarith
+  · have h2 := this.2; simp only [discr, t1, t2]; linarith
+
+/-! ## §F  The two findings: `segments_3d` as it is coded (`seg3dCode`) does NOT satisfy the property -/
 
 /-- F-A: a vertical segment crossing a diagonal horizontal one in the origin.  The code picks the
     coordinate pair (x, y) because both have an extent in one of the lines; the (x, y)-minor of the
@@ -172,5 +402,6 @@ theorem seg3dCode_doubles_touching_point :
       = .segment (P3.ofInt 1 1 1) (P3.ofInt 1 1 1) ∧
     segInter3 (P3.ofInt 0 0 0) (P3.ofInt 1 1 1) (P3.ofInt 1 1 1) (P3.ofInt 2 2 2) = .point (P3.ofInt 1 1 1) := by
   decide +kernel
+
 
 end PorepyVerif.C28
